@@ -16,6 +16,9 @@ import (
 	"github.com/jimsnab/go-lane"
 )
 
+// the longest string value Redis accepts (proto-max-bulk-len)
+const maxStringLength = 512 * 1024 * 1024
+
 const (
 	SET_NOT_EXIST bitflags = 1 << iota
 	SET_EXISTS
@@ -258,6 +261,11 @@ func (dsc *dataStoreCommand) setRange(keyName string, offset int, substring stri
 	if len(substring) == 0 {
 		// nothing to write: the key is neither created nor padded
 		result.data = respInt(len(setBytes))
+		return
+	}
+
+	if offset > maxStringLength || offset+len(substring) > maxStringLength {
+		result.data = respErrorString("ERR string exceeds maximum allowed size (proto-max-bulk-len)")
 		return
 	}
 
